@@ -23,6 +23,11 @@ def opToken : Op → Nat
     absent, which the release build does not check) -/
 def indexIn (m : List Nat) (s : Nat) : Nat := m.findIdx (· == s)
 
+/-- the token pushed for surface `s`: the id itself, or its position in the optional mapping -/
+def surfTok : Option (List Nat) → Nat → Nat
+  | none, s => s
+  | some m, s => indexIn m s
+
 /-- one step of the `while (iter != end)` loop of the `Joined` visitor -/
 def postfixStep (tok : Nat) (acc : Option (List Nat)) (sub : Option (List Nat)) :
     Option (List Nat) :=
@@ -39,8 +44,7 @@ def buildPostfix (t : Tree) (mapping : Option (List Nat)) : Nat → Nat → Opti
     match t.get n with
     | .tru => some [ltrue]
     | .fls => none
-    | .surface s =>
-      some [match mapping with | none => s | some m => indexIn m s]
+    | .surface s => some [surfTok mapping s]
     | .aliased a => buildPostfix t mapping f a
     | .negated a => (buildPostfix t mapping f a).map (· ++ [lnot])
     | .joined _ [] => none
